@@ -999,6 +999,10 @@ class Interp:
                 fn = self.find_method(mod, cls, a)
                 if fn is not None:
                     return Func(fn[0], fn[1], fn[2], self_val=base if _is_classmethod(fn[2]) else None)
+                home = self.prog.locate(mod, cls) or (mod, cls)
+                ca = self.class_attr(home[0], home[1], a)  # a class used as a namespace of constants: `Class.NAME`
+                if ca is not None:
+                    return ca
             if base.dotted == "exp.DataType" and a == "Type":
                 return Ext("exp.DataType.Type")
             return Bound(base, a)
@@ -1520,6 +1524,13 @@ class Interp:
             return self.construct(ClsRef("exp.Table"), [], slots, site)
         if d in ("typing.cast", "builtins.cast"):
             return args[1]
+        if d == "dataclasses.replace" and isinstance(a0, Obj):
+            c = Obj(a0.name, cls=a0.cls, kind=a0.kind, **a0.attrs)  # a copy of the record with the named fields changed
+            for k_ in ("tuple_fields", "lazy_done"):
+                if hasattr(a0, k_):
+                    setattr(c, k_, getattr(a0, k_))
+            c.attrs.update(kwargs)
+            return c
         if b == "isinstance":
             return Const(self.isinstance(args[0], args[1]))
         if b == "str":
